@@ -24,10 +24,83 @@ CHECKS = {
     "C04": ("model_checking", "6/C04",
             "Peel adversary with walks (Adv_Peel.tla) + Trace_Groups.tla for scaling families",
             "As C03 on cyclic digraphs with integer weights; scaling invariance as an equivalence-of-runs trace."),
+    "C05": ("model_checking", "6/C05",
+            "Trace_Groups.tla: every run of an input under a flag vector must reproduce the all-off baseline (solved, objective)",
+            "Equivalence of runs decided by TLC over flag vectors (all-off, all-on, single on/off, random; full products in the "
+            "thorough tier) x inputs x 12 classes; the baseline itself is judged by C03/C04/C07/C08/C09; the premises of the "
+            "soundness argument (safe, incompatible, sound pruning) are C06."),
+    "C06": ("model_checking", "6/C06",
+            "exact product-automaton reachability (Safety.tla: ProdReach) evaluated by TLC on every sequence / slot / pruned pair; "
+            "unit-path adversary Adv_FlowSafe.tla for flow-safe paths",
+            "Safety, incompatibility and pruning soundness are decided exactly (no bound on walk length) by a least-fixpoint "
+            "over graph x progress x progress for every computed sequence on bounded-exhaustive graph and trusted-set universes."),
+    "C07": ("model_checking", "6/C07",
+            "Fit adversary (Adv_Fit.tla) bounded by the observed objective + consistency clauses in Trace_Models + Trace_Groups "
+            "(float no worse than int)",
+            "Optimality = unreachability of k routes+weights with a smaller scaled error (exact for integer weights and for "
+            "float on DAGs with k<=2); objective / per-edge errors / self-check recomputed by TLC."),
+    "C08": ("model_checking", "6/C08",
+            "Cover adversary gives the covering number, Fit adversary with slacks bounds the total slack; Trace_Models clauses",
+            "Feasibility for k at / above the TLC-computed covering number, k=None picks it, the slack inequality per element "
+            "and minimal total slack (integer weights) are decided by TLC per observation."),
     "C09": ("model_checking", "6/C09",
             "Cover adversary (Adv_Cover.tla): minimality, k-feasibility threshold and width = optimum as reachability questions",
             "TLC decides, per observation, whether a cover with fewer routes exists, whether kPathCover(k) should be "
             "feasible, and both inequalities of width = min cover."),
+    "C10": ("model_checking", "6/C10",
+            "ConstraintsHonoured by trace validation; Peel / Cover / Fit adversaries take constraints, ignore sets and starts/ends "
+            "natively; equivalences by Trace_Groups",
+            "The optimum over exactly the admissible solutions is decided by the adversaries on the instance with the feature; "
+            "scale 0 == ignored and [] == omitted as equivalence-of-runs traces."),
+    "C11": ("model_checking", "6/C11",
+            "expansion computed by the specification (Gen_Expand.tla / Graphs!Expand), node-mode vs expansion runs compared by "
+            "Trace_Groups; NodeExpandedDiGraph validated by Trace_NodeExp.tla",
+            "Equal solved status / objective for all 12 classes and features, results in original node names, the expansion "
+            "class equals Graphs!Expand, round trips."),
+    "C12": ("model_checking", "6/C12",
+            "Wrapper.tla state machine (MC + TLC -simulate histories replayed on the real wrapper, Trace_Wrapper.tla); Gadgets.tla "
+            "(MC on the grid) + emitted rows / probes (Trace_Gadget.tla)",
+            "Design-level exactness of the three gadgets for ub<=12; emitted rows of the real helpers enumerated exactly for "
+            "small bounds and probed through HiGHS for larger; call histories validated state by state."),
+    "C13": ("fault_enumeration", "6/C13",
+            "Lifecycle.tla (MC) generates every fault schedule; injected into the real solver wrapper; traces replayed through "
+            "Lifecycle's actions by Trace_Lifecycle.tla",
+            "Every position x every inconclusive status (native time limit, interrupt, unknown, custom timeout) of every "
+            "minimum search, nested helper searches, k-models and NumPathsOptimization; the observed invocation trace must be "
+            "a behaviour of the specification and end in the specified outcome."),
+    "C14": ("model_checking", "6/C14",
+            "Euler.tla: the reconstruction as a state machine, model-checked for every pop order (DoneOK, NeverOveruse, "
+            "Terminates); same assignments preset into the real class, Trace_Euler.tla",
+            "All traversal-count vectors of bounded SRC-SNK walks on all cyclic shapes <=4 nodes: design-level correctness for "
+            "every list order + conformance of get_solution_walks() incl. float noise and all-zero layers."),
+    "C15": ("model_checking", "6/C15",
+            "GenSet.tla validity + Adv_GenSet.tla bounded by the observed size; MinSetCover against TLC's enumeration of all covers",
+            "Validity (sum, every number a bounded sub-multiset sum, partition constraints), minimum size and existence decided "
+            "by TLC on a bounded-exhaustive universe of number lists / totals / multiplicities; set covers exhaustively."),
+    "C16": ("model_checking", "6/C16",
+            "Trace_ErrFlow.tla (same graph, non-negative, conservation, error / objective recomputed) + unit-bump adversary "
+            "Adv_ErrFlow.tla bounded by the observed objective; epsilon and node-mode groups",
+            "A strictly closer admissible flow is a reachable state of the bump machine: decided by TLC per observation "
+            "(integral optimum exists, so exact also for float)."),
+    "C17": ("model_checking", "6/C17",
+            "Substrate.tla cache machine -> TLC -simulate query histories; every answer validated by Trace_Substrate.tla against "
+            "Graphs!ReachFrom / brute-force antichains / FDExact",
+            "Answers of reachability / SCC / max-reachable / antichain / peeling queries equal direct search for every query "
+            "order incl. repetitions (warm caches) on bounded-exhaustive graph universes."),
+    "C18": ("model_checking", "6/C18",
+            "Purity.tla -> TLC -simulate aliasing histories; pooled caller objects dumped after every call; Trace_Purity.tla",
+            "Pool unchanged, results equal to the same construction in a fresh isolated history, repeated getters / solve() "
+            "agree, over generated histories sharing graphs, option dicts, solver options, constraint and ignore lists and "
+            "the mutable defaults."),
+    "C19": ("model_checking", "6/C19",
+            "Validation.tla decision table; TLC enumerates every (class, defect) and (class, defect pair); Trace_Validation.tla",
+            "Every single defect and every compatible pair for every class must give ValueError and never a solved model; "
+            "converse on well-formed inputs of the universes (three naming schemes)."),
+    "C20": ("model_checking", "6/C20",
+            "GraphFile.tla grammar with meaning; TLC generates files (block descriptions x corruptions, two-block files); "
+            "Trace_GraphFile.tla; stored width by the Cover adversary",
+            "read_graphs output equals the specification's meaning of every generated file; every corruption class raises "
+            "ValueError."),
 }
 
 NOT_YET = {}
@@ -51,7 +124,7 @@ def main():
                 "evidence_file": f"/verif/evidence/{pid}.json",
                 "replay_cmd_template": f"./check {pid} --replay {{path}}",
                 "engine": "tlc",
-                "level_claimed": {"category": level, "text": text, "design_ref": ref},
+                "level_claimed": {"category": level, "text": text, "design_ref": "DESIGN.md section " + ref},
                 "level_note": LEVEL_NOTE,
                 "technique": tech,
             })
